@@ -129,6 +129,11 @@ def gen_model_text(rng):
     t += '[EAM-Embed]\n' + ''.join('%s : emb %r\n' % (e, 1.0 + i) for i, e in enumerate(emb))
     if fs: t += '[EAM-Density]\n' + ''.join('%s->%s : core %r 0.5\n' % (a, b, 1.0 + i) for i, (a, b) in enumerate([(a, b) for a in els for b in els if rng.random() < 0.8] or [(els[0], els[0])]))
     else: t += '[EAM-Density]\n' + ''.join('%s : core %r 0.5\n' % (e, 2.0 + i) for i, e in enumerate(els))
+    # per-model reference data: overrides of built-in elements must stay with the model that declares them
+    if rng.random() < 0.5:
+        e = rng.choice(els)
+        t += '[Species]\n' + ''.join('%s.%s : %s\n' % (e, k, v) for k, v in rng.sample([('atomic_mass', repr(round(rng.uniform(1, 250), 2))), ('lattice_constant', repr(round(rng.uniform(2, 6), 2))),
+                                                                                       ('lattice_type', rng.choice(['bcc', 'hcp', 'fcc'])), ('atomic_number', str(rng.randint(1, 100)))], rng.randint(1, 3)))
     return {'text': t, 'npots': len(pairs)}
 
 RS = [0.5, 1.0, 1.5, 2.0, 0.75, 1.25, 3.0]
